@@ -36,6 +36,14 @@ def sel(arr, i):
     return SymInt(z3.simplify(z3.Select(arr, sym._z(i))))
 
 
+def _hi(v):
+    return (v >> 8) if isinstance(v, int) else mks(v.e / 256)
+
+
+def _lo(v):
+    return (v & 255) if isinstance(v, int) else mks(v.e % 256)
+
+
 def offset(g):
     return g * GR + Ite(g >= 34, 2 * GR, 0)
 
@@ -50,13 +58,15 @@ def gran_of(q):
 class WTG:
     """one verification context (arrays + ghost) for a write_to_granules cell"""
 
-    def __init__(self, env, F, pl, has_post):
+    def __init__(self, env, F, pl, has_post, hdr=(0x0102, 0x1234, 0x5678)):
+        """hdr = (recorded data length, load address, exec address): ints or symbolic 16-bit values"""
         self.env, self.F, self.pl, self.has_post = env, F, pl, has_post
+        dl, la, ea = hdr
         self.GA = z3.Array("h_chain", z3.IntSort(), z3.IntSort())
         self.P = z3.Array("Pinj", z3.IntSort(), z3.IntSort())
         self.DA = z3.Array("h_dataarr", z3.IntSort(), z3.IntSort())
-        self.POST = [0xFF, 0x00, 0x00, 0x56, 0x78]
-        self.PRE = {5: [0x00, 0x01, 0x02, 0x12, 0x34], 3: [0xFF, 0x01, 0x02], 0: []}[pl]
+        self.POST = [0xFF, 0x00, 0x00, _hi(ea), _lo(ea)]
+        self.PRE = {5: [0x00, _hi(dl), _lo(dl), _hi(la), _lo(la)], 3: [0xFF, _hi(dl), _lo(dl)], 0: []}[pl]
         self.postlen = 5 if has_post else 0
 
     def g(self, m):
@@ -124,7 +134,8 @@ class DiskWriteToGranules:
         d = F.new(DSK, "DiskFile")
         buf = F.get(d, "buffer")
         base = list(buf)
-        pre, post, stream = self._objects(F, kind, data)
+        hdr = (h.get("hdr_len", 0x0102), h.get("hdr_load", 0x1234), h.get("hdr_exec", 0x5678))
+        pre, post, stream = self._objects(F, kind, data, hdr)
         need = len(stream) // GR + 1
         if len(set(chain)) != len(chain) or any(not 0 <= g <= 67 for g in chain) or len(chain) < need:
             raise sym.PathAbort()
@@ -144,25 +155,27 @@ class DiskWriteToGranules:
         okf = all(buf[q] == base[q] for q in range(N) if q not in region)
         env.ensure(KEY + "write_to_granules::post:frame", okf, ("C08",), lambda: "write_to_granules:%s:frame:L=%d" % (kind, len(data)))
 
-    def _objects(self, F, kind, data):
-        """real preamble / postamble objects with the fixed header values of this lemma, and the expected stream"""
+    def _objects(self, F, kind, data, hdr=(0x0102, 0x1234, 0x5678)):
+        """real preamble / postamble objects with the header values hdr (concrete natively, symbolic in the proof), and the
+        expected stream (native use only)"""
+        dl, la, ea = hdr
         if kind == "ML":
             pre = F.new(DSK, "MLPreamble")
-            F.set(pre, "data_length", F.numeric(0x0102))
-            F.set(pre, "load_addr", F.numeric(0x1234))
+            F.set(pre, "data_length", F.numeric(dl))
+            F.set(pre, "load_addr", F.numeric(la))
             post = F.new(DSK, "Postamble")
-            F.set(post, "exec_addr", F.numeric(0x5678))
-            stream = [0x00, 0x01, 0x02, 0x12, 0x34] + list(data) + [0xFF, 0x00, 0x00, 0x56, 0x78]
+            F.set(post, "exec_addr", F.numeric(ea))
+            stream = [0x00, _hi(dl), _lo(dl), _hi(la), _lo(la)] + list(data) + [0xFF, 0x00, 0x00, _hi(ea), _lo(ea)]
         elif kind == "BASIC":
             pre = F.new(DSK, "BasicPreamble")
-            F.set(pre, "data_length", F.numeric(0x0102))
+            F.set(pre, "data_length", F.numeric(dl))
             post = None
-            stream = [0xFF, 0x01, 0x02] + list(data)
+            stream = [0xFF, _hi(dl), _lo(dl)] + list(data)
         elif kind == "REC-POST":
             pre = None
             post = F.new(DSK, "Postamble")
-            F.set(post, "exec_addr", F.numeric(0x5678))
-            stream = list(data) + [0xFF, 0x00, 0x00, 0x56, 0x78]
+            F.set(post, "exec_addr", F.numeric(ea))
+            stream = list(data) + [0xFF, 0x00, 0x00, _hi(ea), _lo(ea)]
         elif kind == "REC-NOPOST":
             pre, post, stream = None, None, list(data)
         else:
@@ -177,7 +190,8 @@ class DiskWriteToGranules:
         kind = cell["kind"]
         pl = {"ML": 5, "BASIC": 3, "ASCII": 0, "REC-POST": 0, "REC-NOPOST": 0}[kind]
         has_post = kind in ("ML", "REC-POST")
-        W = WTG(env, F, pl, has_post)
+        hdr = (env.hole_int("hdr_len", 0, 65535), env.hole_int("hdr_load", 0, 65535), env.hole_int("hdr_exec", 0, 65535))
+        W = WTG(env, F, pl, has_post, hdr)
         L = env.hole_int("L", 0, 65535)
         k = env.hole_int("k", 1, 68)
         env.hole_terms["chain"] = ("arr", W.GA, k.e)
@@ -190,7 +204,7 @@ class DiskWriteToGranules:
         A0 = z3.Array("A0", z3.IntSort(), z3.IntSort())
         buf = ArrList(A0, N)
         F.set(d, "buffer", buf)
-        pre, post, _ = self._objects(F, kind, [])
+        pre, post, _ = self._objects(F, kind, [], hdr)
         data = ArrList(W.DA, L)
         chain = ArrList(W.GA, k)
         # precondition instances the body needs directly: the first chain element
@@ -240,6 +254,30 @@ class DiskWriteToGranules:
             state["rec"] = (goff, doff, Ld, needd)
             return None
         v.contract(key, CallSpec(apply_rec, nested_only=True))
+
+        # preamble / postamble writers through their contracts (proved for all header values in disk_writer_fns): the bytes
+        # 00|FF, length hi/lo, load hi/lo  resp.  FF 00 00 exec hi/lo  at the pointer, nothing else, returns pointer + length
+        def amble_contract(cls, bytes_):
+            def apply_amble(v_, interp, func, args):
+                bufarg, ptr = args["buffer"], args["pointer"]
+                n_ = len(bytes_)
+                if isinstance(bufarg, ArrList):
+                    env.ensure(KEY.replace("DiskFile.", cls + ".") + "write::pre@call:room", And(ptr >= 0, ptr + n_ <= bufarg.length()), ("C08", "C13"))
+                    for k_, bv in enumerate(bytes_):
+                        bufarg.arr = z3.Store(bufarg.arr, sym._z(bufarg.off + ptr + k_), sym._z(bv))
+                else:
+                    if not isinstance(ptr, int) or ptr + n_ > len(bufarg):
+                        raise sym.EngineError("amble contract on a short python list")
+                    for k_, bv in enumerate(bytes_):
+                        bufarg[ptr + k_] = bv
+                return ptr + n_
+            v.contract(KEY.replace("DiskFile.", cls + ".") + "write", CallSpec(apply_amble))
+        if kind == "ML":
+            amble_contract("MLPreamble", W.PRE)
+        elif kind == "BASIC":
+            amble_contract("BasicPreamble", W.PRE)
+        if has_post:
+            amble_contract("Postamble", W.POST)
         with v.installed():
             try:
                 if kind.startswith("REC"):
